@@ -723,6 +723,18 @@ static std::vector<Prog> programs()
                  q_query(ch, "second.example.com");
                  wait_all(ch, "L6");
                } });
+  {
+    // property C06 ("every query terminates") under the event thread: the two programs in which nothing but the
+    // library's own timers can end the queries
+    std::vector<Prog> add;
+    for (auto &pr : v)
+      if (!strcmp(pr.name, "L1-fresh-socket-silent-server") || !strcmp(pr.name, "L6-deadline-passes-while-a-callback-runs")) {
+        Prog c  = pr;
+        c.group = "c06";
+        add.push_back(c);
+      }
+    for (auto &c : add) v.push_back(c);
+  }
   v.push_back({ "L4-tcp-idle-kept-open-then-silent", "c07", ARES_FLAG_STAYOPEN | ARES_FLAG_USEVC, 1, 0, 1, [](ares_channel_t *ch) {
                  q_query(ch, "warm.example.com");
                  wait_all(ch, "L4 warm-up");
@@ -998,12 +1010,19 @@ int main(int argc, char **argv)
           if (rep.samples.size() < 3 && r.pts.size() > 4 && (nsched % 37) == 5) rep.sample(rj);
           // ---- verdict for this schedule
           std::string grp = pr.group;
+          // group c06 runs event-thread programs for property C06 (every query terminates): same verdicts, C06 keys
+          const bool is6 = grp == "c06";
+          auto       k6  = [&](std::string k) {
+            if (is6 && k.rfind("C07:", 0) == 0) k = "C06:" + k.substr(4);
+            return k;
+          };
+          if (is6) grp = "c07";
           if (r.outcome == EXB_DIVERGED) rep.internal_errors.push_back("replay divergence: " + r.detail + " " + rj);
           else if (r.outcome == EXB_TOO_MANY_POINTS) rep.internal_errors.push_back("scheduler limit: " + r.detail + " " + rj);
           else if (r.outcome == EXB_DEADLOCK)
-            rep.violation(std::string(grp == "c07" ? "C07:event-thread:lost-wakeup:" : "C11:deadlock:") + pr.name, "[" + std::string(evsys_name(e)) + "] " + r.detail + " | " + rj, rj);
+            rep.violation(k6(std::string(grp == "c07" ? "C07:event-thread:lost-wakeup:" : "C11:deadlock:")) + pr.name, "[" + std::string(evsys_name(e)) + "] " + r.detail + " | " + rj, rj);
           else if (r.outcome == EXB_HORIZON)
-            rep.violation(std::string(grp == "c07" ? "C07:event-thread:no-completion-within-horizon:" : "C11:livelock:") + pr.name, "[" + std::string(evsys_name(e)) + "] " + r.detail, rj);
+            rep.violation(k6(std::string(grp == "c07" ? "C07:event-thread:no-completion-within-horizon:" : "C11:livelock:")) + pr.name, "[" + std::string(evsys_name(e)) + "] " + r.detail, rj);
           else if (r.exitcode != 0 || r.sig != 0) {
             std::string kind = "crash";
             size_t      q;
@@ -1018,7 +1037,7 @@ int main(int argc, char **argv)
             rep.internal_errors.push_back("execution neither finished nor reported an outcome: " + rj);
           for (auto &v : r.viols) {
             if (v.first.rfind("HARNESS:", 0) == 0) rep.internal_errors.push_back(v.first + ": " + v.second);
-            else rep.violation(v.first + ":" + pr.name, "[" + std::string(evsys_name(e)) + "] " + v.second + " | " + rj, rj);
+            else rep.violation(k6(v.first) + ":" + pr.name, "[" + std::string(evsys_name(e)) + "] " + v.second + " | " + rj, rj);
           }
           if (r.finished) {
             sigs.insert(r.osig ^ ((uint64_t)r.pts.size() << 48));
